@@ -13,7 +13,7 @@ ORDERED = {}
 def gen_cases(ctx):
     rng = ctx.rng
     g = gen_sqlite.SG(rng)
-    n = 2500 if ctx.quick else 40000
+    n = 2500 if ctx.quick else 120000
     lines = []
     kinds = {}
     for _ in range(n):
